@@ -756,7 +756,7 @@ def eval_line(line, timeout=10):
 
 
 # --------------------------------------------------------------------------
-# fresh <module,module,...|-> <enc(line)> [<enc(line)> ...]: evaluate the lines, in order, in a NEW interpreter
+# newproc <module,module,...|-> <enc(line)> [<enc(line)> ...]: evaluate the lines, in order, in a NEW interpreter
 # (nothing constructed, cached or configured before) and answer the output of the LAST one.  For behaviour that
 # may depend on what the process did first (module-level caches, lazily built parsers); the model, being pure,
 # evaluates the last line alone.
@@ -783,7 +783,7 @@ def op_fresh(t):
     return r.stdout.rstrip("\n").split("\n")[-1]
 
 
-register("fresh", op_fresh)
+register("newproc", op_fresh)
 
 
 if __name__ == "__main__":
